@@ -50,7 +50,23 @@ class Names:
         return self.inv.get(space, {}).get(name, name)
 
 
+def spell_number(num, how):
+    """An attribute number in one of the spellings found in real files (xgcm's COMODO parser documents that it accepts
+    "malformed c_grid_axis_shift attributes such as produced by old versions of xmitgcm")."""
+    if how == "str":
+        return repr(float(num))
+    if how == "list":
+        return [float(num)]
+    if how == "arr":
+        return np.array([float(num)])
+    if how == "f32":
+        return np.float32(num)
+    return float(num)
+
+
 def _resolve_attr(v, nm):
+    if isinstance(v, dict) and "num" in v:
+        return spell_number(v["num"], v.get("as"))
     if isinstance(v, dict) and "tok" in v:
         return nm(v["tok"])
     if isinstance(v, dict) and "fmt" in v:
